@@ -43,8 +43,10 @@ fn set_nonblocking<T: AsRawFd>(fd: &T, nb: bool) -> io::Result<()> {
 /// this type can be used in coroutine context without blocking the thread
 #[derive(Debug)]
 pub struct CoIo<T: AsRawFd> {
-    inner: T,
+    // dropped first: the descriptor must leave the selector before `inner`
+    // closes it, a closed descriptor number can be reused by a new socket at once
     io: io_impl::IoData,
+    inner: T,
     #[cfg(feature = "io_timeout")]
     read_timeout: AtomicDuration,
     #[cfg(feature = "io_timeout")]
